@@ -16,6 +16,7 @@ import (
 	"github.com/gnolang/gno/tm2/pkg/sdk/bank"
 	"github.com/gnolang/gno/tm2/pkg/std"
 	ec "verif/eng/chain"
+	"verif/vk"
 )
 
 // axTx is one transaction as plain data.
@@ -211,6 +212,29 @@ func axSame(a, b abci.ResponseDeliverTx) string {
 }
 
 func axItoa(n int) string { return strconv.Itoa(n) }
+
+// axGasBound is the clause "reported gas used <= gas wanted", strict against
+// the gas wanted DECLARED by the tx. Two literal divergences are routed
+// through known findings with narrow matchers:
+//   - an out-of-gas tx that passed the ante reports the meter value after the
+//     charge that broke the limit (the block is charged GasWanted only);
+//   - a tx rejected with out-of-gas before/inside the ante (response
+//     GasWanted == 0) reports - and is charged to the block - what the
+//     pass-through meter consumed before the tx meter existed.
+func axGasBound(ctx *vk.Ctx, r abci.ResponseDeliverTx, declared int64, what string) error {
+	if r.GasUsed <= declared {
+		return nil
+	}
+	if axOOG(r) && r.GasWanted == declared && ctx.Known("oog-reported-gas-exceeds-wanted") {
+		ctx.Class("known:oog-reported-gas-exceeds-wanted")
+		return nil
+	}
+	if axOOG(r) && r.GasWanted == 0 && ctx.Known("ante-rejected-gas-exceeds-wanted") {
+		ctx.Class("known:ante-rejected-gas-exceeds-wanted")
+		return nil
+	}
+	return fmt.Errorf("%s: reported GasUsed %d exceeds the declared GasWanted %d (response: %s, GasWanted %d)", what, r.GasUsed, declared, axErrType(r), r.GasWanted)
+}
 
 // axCoins returns the ugnot balance and the sequence of an account (committed).
 func (e *axEnv) axAcct(i int) (int64, uint64, error) {
